@@ -68,6 +68,13 @@ def _objs(G):
         "tuple": (1, 2, 3),
         "None": None,
         "float": 2.5,
+        "zero-tuple": (0, 0, 0),
+        "zero-list": [0.0, 0.0, 0.0],
+        "empty-tuple": (),
+        "empty-list": [],
+        "origin-point": G.Point(0, 0, 0),
+        "zero": 0,
+        "false": False,
     }
 
 
@@ -187,6 +194,21 @@ def run_case(case):
                             faces.append(G.ConvexPolygon((fpt(pts[i]), fpt(pts[j]), fpt(pts[l]))))
                             return G.ConvexPolyhedron(tuple(faces))
             raise ValueError("no internal triangle")  # every triple on a face (cannot happen for a 3-D body)
+        elif mode == "two-opposite":
+            # two disjoint faces (no shared vertex): V - E + F = 2 holds for two separate polygons of equal size
+            f0 = K[2][k % len(K[2])][2]
+            other = [j for j, (_n, _b, idx) in enumerate(K[2]) if not set(idx) & set(f0)]
+            if not other:
+                del faces[k % len(faces)]
+            else:
+                faces = [faces[k % len(K[2])], faces[other[0]]]
+        elif mode == "open+detached":
+            # an open shell plus a detached polygon far away
+            del faces[k % len(faces)]
+            far = [X.add(p, (F(40), F(30), F(20))) for p in (K[1][0], K[1][1], K[1][2])]
+            if X.is_zero(X.cross(X.sub(far[1], far[0]), X.sub(far[2], far[0]))):
+                far[2] = X.add(far[2], (F(0), F(0), F(1)))
+            faces.append(G.ConvexPolygon(tuple(fpt(p) for p in far)))
         elif mode == "flat-one":
             faces = [faces[k % len(faces)]]
         elif mode == "flat-two":
@@ -374,7 +396,7 @@ def pyramid_bad(draw):
 @st.composite
 def faces_bad(draw):
     K = draw(GB.polyhedron())
-    mode = draw(st.sampled_from(("open", "open2", "duplicate", "extra-internal", "flat-one", "flat-two", "empty")))
+    mode = draw(st.sampled_from(("open", "open2", "duplicate", "extra-internal", "flat-one", "flat-two", "empty", "two-opposite", "open+detached")))
     return ("polyhedron/faces", K, mode, draw(st.integers(0, 20)))
 
 
@@ -433,7 +455,7 @@ def enum_volume(shard, nshards):
 def enum_move(shard, nshards):
     i = 0
     for k in GEO:
-        for arg in ("P", "int", "str", "tuple", "None", "float", "L", "PL"):
+        for arg in ("P", "int", "str", "tuple", "None", "float", "L", "PL", "zero-tuple", "zero-list", "empty-tuple", "empty-list", "origin-point", "zero", "false"):
             i += 1
             if i % nshards == shard:
                 yield ("move/non-vector", k, arg)
